@@ -106,6 +106,29 @@ CHECKS = {
     note=TB + "Assumed: rt_spec describes onnxruntime (validated every run). Operators typed by ONNX's own inference are validated only.",
     technique="Coq proof (per-routine soundness vs runtime shape spec) + constructor correspondence + onnxruntime conformance oracle",
     ref="4 C06"),
+
+ "C07": dict(
+    text="PROOF (coq/props/C07.v): an attached value always conforms to the Var's reported type (every level), a Var with a value has "
+         "no argument in its dependency cone (all DAGs), the value on output field f is the backend's entry for THAT output (no "
+         "cross-mapping; refutation for the pinned mapping), inline outputs by declared order, unsafe_cast copies, Constant/initializer "
+         "values typed, value_equals_runtime under the named premise 'backend agrees with opsem on constants'. CORRESPONDENCE: "
+         "presence/dtype/shape of Var._value on generated constant programs under both backends. ORACLE: each valued Var exposed as "
+         "output of a built model, onnxruntime (no optimisations, two bindings) vs Var._get_value(); ONNX node-test corpus with "
+         "constant inputs vs expected outputs.",
+    note=TB + "Premise 'backend agrees with opsem' is validated, not proved; DFT/STFT/Resize backend disagreements are environment findings.",
+    technique="Coq proof (value attachment model) + correspondence + ORT-vs-propagated-value oracle + node-test corpus",
+    ref="4 C07"),
+ "C15": dict(
+    text="PROOF (coq/props/C15.v): for EVERY backend result (exceptions, ill-typed arrays, lists, None, scalars, wrong names) at either "
+         "backend, node construction succeeds (repaired code; refutations with witnesses for the pinned code), no non-conforming value "
+         "is attached, output types are independent of the backend result, NONE backend attaches nothing; downstream types only more "
+         "permissive under the named monotonicity premise. CORRESPONDENCE: systematic fault injection below spox (patched "
+         "ReferenceEvaluator.run / InferenceSession.run, 201-entry fault catalogue) at each operator of generated programs vs the model. "
+         "ORACLE: constructor outcome, independent conformance check, type comparison with the fault-free run, onnxruntime results of "
+         "models built with vs without propagation.",
+    note=TB + "Premise 'inference monotone in known constants' is tested on every fault run, not proved; BaseExceptions out of scope.",
+    technique="Coq proof (all backend results) + fault-injection correspondence",
+    ref="4 C15"),
  "C08": dict(
     text="PROOF (coq/props/C08.v): argument binding of the inlined callable (positional in input order, keywords, defaults; missing / "
          "duplicated / unknown / surplus -> TypeError; refutation of the pinned zip-truncation), type check at the boundary, declared "
